@@ -265,11 +265,11 @@ class Stream11:
         self.cur = lin
         (e,) = self._new_entries()
         t = self._record_turn(e, 0, "init")
+        lin.turns += 1
         self._consume(lin, t, first=True)
 
     def _consume(self, lin: Lineage, t: dict, first: bool = False) -> None:
         """Pull the batches of the turn that has just been served through the client API."""
-        lin.turns += 1
         if lin.api == "iter":
             if lin.it is None:
                 lin.it = iter(lin.session)
@@ -344,7 +344,7 @@ class Stream11:
             if lin.api == "iter":
                 self._consume(lin, t)
             frm = lin.origin + len(lin.ids)
-            lin.turns += 0
+            lin.turns += 1
         return True
 
     def resume(self, pos: int, how: str) -> bool:
@@ -426,7 +426,7 @@ def _run(ctx: Ctx) -> None:
 
     # ---- (1) TLC checks the model
     mc_scripts = [[2, 4], [4, 2, 2], [2, 2, 4]] if quick else _scripts([2, 4, 6], 3)
-    wrap_module(wd, "Chunking", "MC_Chunk", {"ScriptsDef": _tla_seqs(mc_scripts), "CapsDef": "0..9" if quick else "0..21",
+    wrap_module(wd, "Chunking", "MC_Chunk", {"ScriptsDef": _tla_seqs(mc_scripts), "CapsDef": "0..9" if quick else "(0..13) \\cup {15, 17, 19, 21}",
                                              "CodecsDef": '{"none", "zstd"}' if quick else all_codecs,
                                              "ApisDef": '{"iter", "nwt"}', "EagersDef": "BOOLEAN",
                                              "Symm": "Permutations(Workers)"})
@@ -444,8 +444,8 @@ def _run(ctx: Ctx) -> None:
     ctx.extra["design_as_found_counterexample"] = [a for a, _ in fr.counterexample]
 
     # ---- (2) histories from the state graph
-    g_scripts = [[2, 4], [4, 2, 2]] if quick else [[2], [4, 2], [2, 4], [4, 2, 2], [2, 2, 4], [6, 2, 2]]
-    g_caps = "{0, 1, 6, 9}" if quick else "0..11"
+    g_scripts = [[2, 4], [4, 2, 2]] if quick else [[2], [2, 4], [4, 2, 2], [2, 2, 4], [6, 2, 2]]
+    g_caps = "{0, 1, 6, 9}" if quick else "0..9"
     wrap_module(wd, "Chunking", "G_Chunk", {"ScriptsDef": _tla_seqs(g_scripts), "CapsDef": g_caps,
                                             "CodecsDef": '{"none", "zstd"}' if quick else all_codecs,   # gzip: extras + sweep
                                             "ApisDef": '{"iter", "nwt"}', "EagersDef": "{FALSE}" if quick else "BOOLEAN"})
